@@ -45,6 +45,38 @@ REACH = {
 OPS = ["binary", "container", "json", "validate", "pcf", "fingerprint", "generate", "resolve"]
 
 
+def _rec(name, ns, field, ftype="double", default=0.0):
+    return {"type": "record", "name": name, "namespace": ns, "fields": [{"name": field, "type": ftype, "default": default}]}
+
+
+# shapes the random generator reaches rarely: the same short name in two namespaces inside one
+# union, names that are prefixes of one another, a type used from two separately parsed pieces
+TARGETED = [
+    ({"type": "record", "name": "Log", "namespace": "x", "fields": [
+        {"name": "r", "type": [_rec("Reading", "lab", "celsius"), _rec("Reading", "field", "kelvin")]},
+        {"name": "again", "type": ["null", "field.Reading", "lab.Reading"], "default": None}]},
+     [{"r": {"kelvin": 3.0}, "again": {"celsius": 1.0}}, {"r": {"celsius": 2.0}, "again": {"kelvin": 4.0}}, {"r": {"kelvin": 5.0}}]),
+    ({"type": "record", "name": "Pick", "fields": [
+        {"name": "e", "type": [{"type": "enum", "name": "Level", "namespace": "a", "symbols": ["LO", "HI"]},
+                               {"type": "enum", "name": "Level", "namespace": "b", "symbols": ["HI", "LO", "MID"]}]},
+        {"name": "f", "type": {"type": "map", "values": ["a.Level", "b.Level"]}}]},
+     [{"e": "MID", "f": {"k": "LO"}}, {"e": ("b.Level", "LO"), "f": {"k": ("b.Level", "HI"), "j": "HI"}}]),
+    ({"type": "record", "name": "Pair", "namespace": "ns", "fields": [
+        {"name": "first", "type": {"type": "record", "name": "Item", "fields": [
+            {"name": "kind", "type": {"type": "enum", "name": "ItemKind", "symbols": ["A", "B"]}, "default": "A"},
+            {"name": "n", "type": "int", "default": 0}]}},
+        {"name": "second", "type": "ns.Item"},
+        {"name": "kinds", "type": {"type": "array", "items": "ItemKind"}, "default": []}]},
+     [{"first": {"kind": "B", "n": 1}, "second": {"n": 2}, "kinds": ["A", "B"]}, {"first": {}, "second": {"kind": "B"}}]),
+    ({"type": "record", "name": "Hand", "namespace": "demo", "fields": [
+        {"name": "top", "type": {"type": "record", "name": "Card", "fields": [
+            {"name": "suit", "type": {"type": "enum", "name": "Suit", "symbols": ["S", "H"]}}, {"name": "rank", "type": "int"}]}},
+        {"name": "trump", "type": "Suit"},
+        {"name": "rest", "type": {"type": "array", "items": "Card"}}]},
+     [{"top": {"suit": "H", "rank": 3}, "trump": "S", "rest": [{"suit": "S", "rank": 1}]}]),
+]
+
+
 def plan(tier, seed):
     n = N[tier]
     return [{"shard": i, "n": n // SHARDS, "seed": seed, "tier": tier, "time_limit": TIME_LIMIT[tier], "witness": i == 0}
@@ -207,7 +239,15 @@ def run_ops(fa, schema, data, seed, rereads, skip_generate=False, raw=None):
         so = io.StringIO()
         fa.json_writer(so, schema, list(data))
         txt = so.getvalue()
-        return [json.loads(l) for l in txt.split("\n")] if txt else [], list(fa.json_reader(io.StringIO(txt), schema))
+        docs = [json.loads(l) for l in txt.split("\n")] if txt else []
+        filled = None
+        if isinstance(raw, dict) and raw.get("type") in ("record", "error") and docs:
+            # the same text without the keys of defaulted top-level fields: the reader fills them in
+            names = {f["name"] for f in raw.get("fields", []) if "default" in f}
+            if names:
+                short = "\n".join(json.dumps({k: v for k, v in doc.items() if k not in names}) for doc in docs)
+                filled = obs(lambda: list(fa.json_reader(io.StringIO(short), schema)))
+        return docs, list(fa.json_reader(io.StringIO(txt), schema)), filled
 
     out["json"] = obs(jsonrt)
 
@@ -418,6 +458,14 @@ def run_shard(spec):
                 k2 = known.classify("C12", fa, v, case, data, None, sh, 0)
                 sh.violation(v[0], v[1], v[2], known_key=k2, what="%s: %s" % (v[0], v[1][:160]))
             sh.count("known_witnesses_replayed")
+    if spec.get("witness"):
+        for js, data in TARGETED:
+            node, env = RS.build(js)
+            case = {"schema": js, "node": node, "data": data}
+            for v in sh.run_case(one_case, sh, fa, rng, case, reread_log) or []:
+                k2 = sh.run_case(known.classify, "C12", fa, v, case, data, None, sh, 0)
+                sh.violation(v[0], v[1], v[2], known_key=k2, what="%s: %s" % (v[0], v[1][:160]))
+            sh.count("targeted_schemas")
     i = 0
     while i < spec["n"] and not sh.out_of_time():
         i += 1
